@@ -452,6 +452,11 @@ impl Names {
     fn c15_tree(&self, rng: &mut Rng, ctx: &mut Ctx, forced: Option<ANode>) {
         let a = match forced {
             Some(a) => a,
+            None if rng.chance(1, 2) => {
+                let d = rng.range(2, 5);
+                let t = dense_layout(rng, d);
+                if rng.chance(1, 3) { ANode::doc(vec![t]) } else { t }
+            }
             None => {
                 let wild = rng.chance(1, 4);
                 let mut t = self.gen_tree(rng, wild);
@@ -602,6 +607,36 @@ impl Names {
     }
 }
 
+/// dense redundant layouts over two namespaces: every element declares a random subset of
+/// {default, p, q} x {A, B} (and sometimes xmlns=""), names and attributes live in A / B
+fn dense_layout(rng: &mut Rng, depth: usize) -> ANode {
+    let uris = [gen::NS_A, gen::NS_B];
+    let mut e = ANode::elem(QName::new(uris[rng.below(2)], *rng.pick(&["a", "b", "c"])));
+    if rng.chance(1, 6) {
+        e.name.ns = String::new();
+    }
+    for p in ["", "p", "q"] {
+        if rng.chance(2, 5) {
+            let u = if p.is_empty() && rng.chance(1, 6) { "" } else { uris[rng.below(2)] };
+            e.decls.push((p.to_string(), u.to_string()));
+        }
+    }
+    rng.shuffle(&mut e.decls);
+    for k in ["k", "l"] {
+        if rng.chance(1, 3) {
+            let ns = if rng.chance(1, 4) { "" } else { uris[rng.below(2)] };
+            e.attrs.push((QName::new(ns, k), "v".to_string()));
+        }
+    }
+    if depth > 0 {
+        let n = rng.pick_weighted(&[2, 5, 2]);
+        for _ in 0..n {
+            e.children.push(dense_layout(rng, depth - 1));
+        }
+    }
+    e
+}
+
 fn c15_forced() -> Vec<ANode> {
     let e = |ns: &str, n: &str| ANode::elem(QName::new(ns, n));
     vec![
@@ -613,6 +648,11 @@ fn c15_forced() -> Vec<ANode> {
         e("urn:A", "r").with_decl("", "urn:A").with_children(vec![e("urn:A", "e").with_decl("p", "urn:A").with_attr(QName::new("urn:A", "k"), "v")]),
         // same prefix redeclared down a path
         e("urn:A", "r").with_decl("p", "urn:A").with_children(vec![e("urn:A", "e").with_decl("p", "urn:A").with_children(vec![e("urn:A", "f").with_decl("p", "urn:A")])]),
+        // the same default namespace declared redundantly on two nested ancestors while an attribute needs the alias
+        e("urn:A", "doc").with_decl("", "urn:A").with_children(vec![e("urn:A", "a").with_decl("p", "urn:A").with_children(vec![e("urn:A", "b").with_decl("", "urn:A").with_attr(QName::new("urn:A", "k"), "v")])]),
+        e("urn:A", "doc").with_decl("", "urn:A").with_children(vec![e("urn:A", "a").with_decl("", "urn:A").with_decl("p", "urn:A").with_children(vec![e("urn:A", "b").with_attr(QName::new("urn:A", "k"), "v")])]),
+        // alias for the default namespace, default undeclared further down
+        e("urn:A", "a").with_decl("", "urn:A").with_children(vec![e("urn:A", "b").with_decl("q", "urn:A").with_children(vec![e("", "c").with_decl("", "").with_children(vec![e("urn:A", "d")])])]),
         // default namespaces interleaved with prefixed ones
         e("urn:A", "r").with_decl("", "urn:A").with_decl("p", "urn:B").with_children(vec![e("urn:B", "e").with_decl("", "urn:B").with_children(vec![e("urn:A", "f").with_decl("", "urn:A").with_decl("q", "urn:B").with_attr(QName::new("urn:B", "k"), "v")])]),
     ]
